@@ -27,6 +27,9 @@ fn starts() -> Vec<Start> {
         Start { name: "0.0.0", args: a(&["--source", "none", "--tag-version", "0.0.0"]), stdin: None },
         Start { name: "1.2.3-alpha.1.post.2+b", args: a(&["--source", "none", "--tag-version", "1.2.3-alpha.1.post.2+b", "--bumped-branch", "main"]), stdin: None },
         Start { name: "stdin-u64max", args: a(&["--source", "stdin"]), stdin: Some(big) },
+        // a pre-release at number 0 with post and dev behind it: an operation that "changes nothing" at its own level (label
+        // bump to the same label, bump by 0, override to the present value) must still reset what lies below
+        Start { name: "1.2.3-beta.0.post.2.dev.1", args: a(&["--source", "none", "--tag-version", "1.2.3-beta.0.post.2.dev.1"]), stdin: None },
     ]
 }
 
@@ -66,6 +69,7 @@ fn alphabet(st: &State, full: bool) -> Vec<Op> {
     v.push(Op::OverrideLabel("alpha"));
     v.push(Op::OverrideLabel("rc"));
     v.push(Op::BumpLabel("beta"));
+    if full { v.push(Op::BumpLabel("alpha")); v.push(Op::BumpLabel("rc")); }
     v.extend([Op::Distance(4), Op::Dirty, Op::NoDirty, Op::Clean, Op::NoBumpContext]);
     for (sec, comps) in [(Section::Core, &st.schema.core), (Section::ExtraCore, &st.schema.extra_core), (Section::Build, &st.schema.build)] {
         let len = comps.len();
@@ -308,7 +312,7 @@ fn main() {
     cov.evaluations = cov.transitions;
     cov.traces_validated = cov.transitions;
     cov.distinct_nontrivial = all.get("model_ok");
-    cov.rule = format!("flag-instance alphabets of sizes {alpha_sizes:?} per (start version x schema) environment ({} environments: 6 start versions x 4 schemas): every subset up to size 3 (2 for the literal-heavy schema in quick) run through the real clap parser + run_version_pipeline with --output-format zerv and compared (schema + vars) with R-BUMP; permutations: all orders for subsets up to size {} and the reversed order above; invalid targets and boundary amounts enumerated per section; chaining: every single op, then every op set of size <= {} via --source stdin, model continued from the intermediate state. non-trivial = runs where the model predicts success and the full state is compared", envs.len(), if quick { 2 } else { 3 }, if quick { 1 } else { 2 });
+    cov.rule = format!("flag-instance alphabets of sizes {alpha_sizes:?} per (start version x schema) environment ({} environments: 7 start versions x 4 schemas): every subset up to size 3 (2 for the literal-heavy schema in quick) run through the real clap parser + run_version_pipeline with --output-format zerv and compared (schema + vars) with R-BUMP; permutations: all orders for subsets up to size {} and the reversed order above; invalid targets and boundary amounts enumerated per section; chaining: every single op, then every op set of size <= {} via --source stdin, model continued from the intermediate state. non-trivial = runs where the model predicts success and the full state is compared", envs.len(), if quick { 2 } else { 3 }, if quick { 1 } else { 2 });
     cov.exhaustive = true;
     cov.samples = vec![json!({"start":"1.2.3-rc.4","schema":"standard-base-prerelease-post-dev","argv":["--bump-major","--patch","3","--bump-extra-core=~1"]}), json!({"start":"stdin-u64max","schema":"ron-literals","argv":["--bump-major=2"]}), json!({"chain":["--bump-minor"],"then":["--core=0=4"]})];
     cov.set("clause_counts", all.to_json());
